@@ -1,24 +1,37 @@
 """C04 — polygon area, signed area, perimeter, centroid, planar/polar moments, inertia tensor are exact."""
+from fractions import Fraction
+
 import numpy as np
 import rowan
 
 import gen
+import history
 from common import read_shuffled, L, ModelRaise, exc_kind
 
 RULE = ("simple polygons from gen.polygon2d (star/comb/spiral/lattice/convex/rect/triangle/reflex-first-corner, 3-40 "
-        "vertices on a 1/64 grid) x {ccw, cw} x {default, explicit same, explicit opposite normal} x {xy-plane, random "
-        "plane} x offsets <= 10 diameters x scale; classes Polygon and (convex kinds) ConvexPolygon; distinct = distinct "
-        "(vertices, normal argument, class)")
+        "vertices on a 1/64 grid, optionally stretched to needle aspect ratios up to 64:1) x {ccw, cw} x {default, "
+        "explicit same, explicit opposite normal; unit and non-unit length} x {xy-plane, near-flat tilt 1e-7..3e-2 rad "
+        "(also about -z), random plane} x offsets <= 10 diameters x scale 2^-40..2^40 x {(N,3), (N,2) input} x classes "
+        "Polygon and (convex kinds) ConvexPolygon (vertices handed over in cycle order or SHUFFLED: the constructor "
+        "re-sorts) x {built directly, reached through setters (history.maybe_via_history)} x the eight measures read "
+        "twice, each time in an order drawn per case (and fixed inertia-first orders in the corpus); distinct = "
+        "distinct (vertices, normal argument, class)")
 ASSUMPTIONS = [
-    "exact integrals over the polygon = sums of triangle closed forms (Spec/Planar.lean) over an independent exact ear-"
-    "clipping triangulation, evaluated exactly over Q by the driver in the polygon's own plane coordinates",
+    "exact integrals over the polygon = iterated integrals over the triangles of an independent exact ear-clipping "
+    "triangulation (Props/C04 certified_oracle: the driver checks over Q, per case, that the triangle list is a positively "
+    "oriented triangulation of the vertex cycle in the chain sense, and the closed forms it sums are proved equal to the "
+    "iterated integrals), evaluated exactly over Q by the driver in the polygon's own plane coordinates; the map from "
+    "plane coordinates to 3-space (o + x u + y w) is applied in floating point",
     "rowan.mapping.kabsch is external: its matrix is an input of the model; contract (orthogonal, det 1, maps n to z) "
-    "checked per case",
+    "checked per case; the theorems hold for ANY matrix meeting the contract (frame independence)",
     "inertia tensor spec per the property text: polar moment about the centroidal normal axis J n n^T, moved to the "
     "origin by the parallel-axis theorem",
 ]
 
 Z = np.array([0.0, 0.0, 1.0])
+QCODE = {"signed_area": 0, "area": 1, "perimeter": 2, "centroid": 3, "planar": 4, "polar": 5, "inertia": 6, "center": 7}
+QSIZE = {"signed_area": 1, "area": 1, "perimeter": 1, "centroid": 3, "planar": 3, "polar": 1, "inertia": 9, "center": 3}
+QSCALE = {"signed_area": 2, "area": 2, "perimeter": 1, "centroid": 1, "planar": 4, "polar": 4, "inertia": 4, "center": 1}
 
 
 def kabsch(n):
@@ -30,10 +43,91 @@ def build(case):
     import coxeter
     cls = getattr(coxeter.shapes, case["cls"])
     v = np.array(case["vertices"], dtype=float)
+    if case.get("ncols") == 2:
+        v = v[:, :2].copy()
     normal = case.get("normal")
     if normal is not None:
         return cls(v, normal=np.array(normal, dtype=float))
     return cls(v)
+
+
+def getters_of(p):
+    return {
+        "signed_area": lambda: float(p.signed_area), "area": lambda: float(p.area),
+        "perimeter": lambda: float(p.perimeter),
+        "centroid": lambda: np.array(p.centroid, dtype=float),
+        "planar": lambda: np.array(p.planar_moments_inertia, dtype=float),
+        "polar": lambda: float(p.polar_moment_inertia),
+        "inertia": lambda: np.array(p.inertia_tensor, dtype=float),
+        "center": lambda: np.array(p.center, dtype=float),
+    }
+
+
+def read_in_order(getters, order):
+    return {n: getters[n]() for n in order}, list(order)
+
+
+def frac_rows(a):
+    return [[Fraction(float(x)) for x in row] for row in a]
+
+
+def exact_xy_block(ctx, case, obs, verts, N, R, Ls):
+    """xy-plane polygons, directly built: the stored vertices are doubles = rationals and R is a signed permutation, so
+    EVERYTHING is exact.  Triangulate the object's OWN (aligned) vertex cycle, let the driver certify the triangulation
+    (cert.planar, Q), and compare the model evaluated over Q with the spec evaluated over Q as rationals (the theorem
+    `certified_xy_model` instantiated), then the implementation with those rationals."""
+    Rr = np.round(R)
+    Nr = np.round(N)
+    w = verts @ Rr.T                                    # exact (signed permutation)
+    if not np.all(w[:, 2] == w[0, 2]):
+        return
+    P = frac_rows(w)
+    n = len(P)
+    a2 = sum(P[i][0] * P[(i + 1) % n][1] - P[(i + 1) % n][0] * P[i][1] for i in range(n))
+    if a2 == 0:
+        return
+    s_cyc = 1 if a2 > 0 else -1
+    tris = gen.ear_clip_exact([(float(x), float(y)) for x, y, _ in P])
+    if tris is None:
+        ctx.contract_failures.append({"contract": "exact ear clipping of the stored cycle", "case": case["kind"]})
+        return
+    w0 = w.copy()
+    w0[:, 2] = 0.0                                       # the certificate works in the plane z = 0
+    T_cyc = [np.array([w0[i], w0[j], w0[k]]) for (i, j, k) in tris]           # oriented like the cycle
+    T_ccw = T_cyc if s_cyc > 0 else [t[[0, 2, 1]] for t in T_cyc]
+    cert_tri, _, cert_flat = ctx.driver.Q("cert.planar", L(list(w0)), L(T_cyc))
+    _, cert_or, _ = ctx.driver.Q("cert.planar", L(list(w0)), L(T_ccw))
+    ctx.count("certificates:stored-cycle")
+    if not (cert_tri and cert_or and cert_flat):
+        ctx.obligation_breaks.append({"obligation": "cert.planar on the stored vertex cycle",
+                                      "detail": [cert_tri, cert_or, cert_flat], "case": case})
+        return
+    A, f0, f1, s00, s11, s01 = ctx.driver.Q("spec.planar", L(T_ccw))
+    try:
+        qm = ctx.driver.Q("polygon.rational", L(list(verts)), Nr, Rr)
+    except ModelRaise:
+        return
+    ctx.count("model_Q_evaluations")
+    z0 = P[0][2]
+    cen_al = [f0 / A, f1 / A, z0]
+    RrT = [[Fraction(int(Rr[j][i])) for j in range(3)] for i in range(3)]
+    cen = [sum(RrT[i][j] * cen_al[j] for j in range(3)) for i in range(3)]
+    expect = [s_cyc * A] + cen + [s11, s00, s01]
+    if [Fraction(x) for x in qm] != expect:
+        ctx.disagree("polygon.rational:model(Q) == spec(Q) exactly [certified_xy_model]", case,
+                     [[str(x) for x in qm], [str(x) for x in expect]])
+    # implementation against the exact rationals of its own vertex list
+    sig = case["cls"]
+    checks = [("signed_area", float(s_cyc * A), 2), ("area", float(A), 2), ("centroid", [float(x) for x in cen], 1),
+              ("polar", float(s00 + s11), 4)]
+    if np.array_equal(Rr, np.eye(3)):
+        # +z normal, identity frame: the planar moments are the integrals of y^2, x^2, xy (property text)
+        checks.append(("planar", [float(s11), float(s00), float(s01)], 4))
+    for name, val, k in checks:
+        if not ctx.close_enough(obs[name], val, Ls ** k):
+            ctx.fail(sig + "." + name + ":exact-rational", "%s differs from the exact rational value computed from the "
+                     "object's own vertices (certified triangulation)" % name, case, [obs[name], val])
+    ctx.count("exact_rational_checked")
 
 
 def eval_case(ctx, case):
@@ -42,57 +136,95 @@ def eval_case(ctx, case):
     fr = {k: np.array(val, dtype=float) for k, val in case["frame"].items() if k in ("o", "u", "w", "n")}
     d = gen.diameter(v_in)
     Ls = d + float(np.linalg.norm(v_in.mean(axis=0)))
+    how = "direct"
     try:
         p = build(case)
-        # the measures are read in an order drawn per case: none may depend on what was asked before
-        obs, order = read_shuffled({
-            "signed_area": lambda: float(p.signed_area), "area": lambda: float(p.area),
-            "perimeter": lambda: float(p.perimeter),
-            "centroid": lambda: np.array(p.centroid, dtype=float),
-            "planar": lambda: np.array(p.planar_moments_inertia, dtype=float),
-            "polar": lambda: float(p.polar_moment_inertia),
-            "inertia": lambda: np.array(p.inertia_tensor, dtype=float),
-            "center": lambda: np.array(p.center, dtype=float),
-        }, case["vertices"])
-        ctx.count("first-query:" + order[0])
     except Exception as e:
-        ctx.fail("%s:raises" % case["cls"], "constructor or a measure raised %s on a valid simple polygon" % exc_kind(e),
+        if (case.get("needle") or abs(np.log2(case.get("scale", 1.0))) > 10) and exc_kind(e) == "ValueError":
+            # validity checks of the constructor at needle aspect ratios / extreme sizes are C15's subject
+            ctx.count("skipped:constructor-rejects-extreme(C15)")
+            return
+        ctx.fail("%s:raises" % case["cls"], "constructor raised %s on a valid simple polygon" % exc_kind(e),
+                 case, repr(e))
+        return
+    try:
+        if not case.get("no_history"):
+            p, how = history.maybe_via_history(p, history.rng_for(case["vertices"]),
+                                               1.0 if case.get("force_history") else 1.0 / 3.0, ctx)
+        verts0 = np.array(p.vertices, dtype=float)
+        normal0 = np.array(p.normal, dtype=float)
+        # the measures are read in an order drawn per case (or prescribed by the case): none may depend on what was
+        # asked before; then ALL of them once more in another order
+        if case.get("order"):
+            obs, order = read_in_order(getters_of(p), case["order"])
+        else:
+            obs, order = read_shuffled(getters_of(p), case["vertices"])
+        obs2, order2 = read_shuffled(getters_of(p), [case["vertices"], "again"])
+        ctx.count("first-query:" + order[0])
+        if order.index("inertia") < min(order.index("planar"), order.index("polar")):
+            ctx.count("order:inertia-before-moments")
+    except Exception as e:
+        ctx.fail("%s:raises" % case["cls"], "a measure raised %s on a valid simple polygon" % exc_kind(e),
                  case, repr(e))
         return
     N = np.array(p.normal, dtype=float)
     verts = np.array(p.vertices, dtype=float)
+    sig = case["cls"]
+    # ---- the object after the reads: the model says the state is what it was (inertiaTensorStep_restores / observeAll_state)
+    if not (np.array_equal(verts, verts0) and np.array_equal(N, normal0)):
+        ctx.disagree("polygon.queries:state(restored after the reads)", case,
+                     [float(np.max(np.abs(verts - verts0))), N.tolist(), normal0.tolist()])
+        return
     if abs(float(np.linalg.norm(N)) - 1.0) > 1e-9:
         ctx.fail("%s.normal:not-unit" % case["cls"], "the stored normal is not a unit vector", case, N)
         return
     R = kabsch(N)
     R2 = kabsch(Z)
     ok_contract = (np.allclose(R @ R.T, np.eye(3), atol=1e-12) and abs(np.linalg.det(R) - 1) < 1e-12
-                   and np.allclose(R @ N, Z, atol=1e-12))
+                   and np.allclose(R @ N, Z, atol=1e-12)
+                   and np.allclose(R2 @ R2.T, np.eye(3), atol=1e-12) and abs(np.linalg.det(R2) - 1) < 1e-12
+                   and np.allclose(R2 @ Z, Z, atol=1e-12))
     if not ok_contract:
         ctx.contract_failures.append({"contract": "kabsch proper rotation n->z", "normal": N.tolist()})
         return
-    # ---------------- B: model at Float
+    # ---------------- B: the model as a state machine, same history of reads, at Float
+    codes = [QCODE[k] for k in order + order2]
     try:
-        r = ctx.driver.F("polygon.measures", L(list(verts)), N, R, R2)
+        r = ctx.driver.F("polygon.queries", L(list(verts)), N, R, R2, L(codes))
     except ModelRaise as e:
-        ctx.disagree("polygon.measures", case, "model raised " + e.kind)
+        ctx.disagree("polygon.queries", case, "model raised " + e.kind)
         return
-    m = {"signed_area": r[0], "area": r[1], "perimeter": r[2], "centroid": np.array(r[3:6]),
-         "planar": np.array(r[6:9]), "polar": r[9], "inertia": np.array(r[10:19]).reshape(3, 3)}
-    scales = {"signed_area": Ls ** 2, "area": Ls ** 2, "perimeter": Ls, "centroid": Ls, "planar": Ls ** 4,
-              "polar": Ls ** 4, "inertia": Ls ** 4}
-    for k in m:
-        if not ctx.close_enough(obs[k], m[k], scales[k]):
-            ctx.disagree("polygon.measures:" + k, case, [obs[k], m[k]])
+    pos = 0
+    for rnd, (names, got) in enumerate(((order, obs), (order2, obs2))):
+        for k in names:
+            m = np.array(r[pos:pos + QSIZE[k]])
+            pos += QSIZE[k]
+            if QSIZE[k] == 9:
+                m = m.reshape(3, 3)
+            if not ctx.close_enough(np.array(got[k]).reshape(m.shape), m, Ls ** QSCALE[k]):
+                ctx.disagree("polygon.queries:%s(read %d)" % (k, rnd + 1), case, [got[k], m])
+    st = np.array(r[pos:])
+    if not (np.array_equal(st[:3], N) and np.array_equal(st[3:].reshape(-1, 3), verts)):
+        ctx.disagree("polygon.queries:state", case, "model state after the history differs from the object's")
+    # second read against the first: the same object, the same geometry
+    for k in obs:
+        if not ctx.close_enough(obs2[k], obs[k], Ls ** QSCALE[k]):
+            ctx.fail(sig + "." + k + ":repeat-read", "the same measure read twice on an unchanged object gives two "
+                     "different values (first order %s, second order %s)" % (order, order2), case, [obs[k], obs2[k]])
+            return
 
     # ---------------- C: implementation vs exact spec
     tris = case["tris"]
     T = [np.array([[p2[i][0], p2[i][1], 0.0] for i in t]) for t in tris]
+    cyc = [np.array([x, y, 0.0]) for x, y in p2]
+    cert = ctx.driver.Q("cert.planar", L(cyc), L(T))
+    ctx.count("certificates:oracle")
+    if not all(cert):
+        ctx.obligation_breaks.append({"obligation": "cert.planar: the oracle's ear clipping is a positively oriented "
+                                      "triangulation of the generated cycle", "detail": cert, "case": case})
+        return
     q = ctx.driver.Q("spec.planar", L(T))
     A, f0, f1, s00, s11, s01 = [float(x) for x in q]
-    if not A > 0:
-        ctx.contract_failures.append({"contract": "oracle triangulation positively oriented", "A": A})
-        return
     cx, cy = f0 / A, f1 / A
     o, u, w, nf = fr["o"], fr["u"], fr["w"], fr["n"]
     # orientation of the stored vertices in frame coordinates
@@ -102,15 +234,15 @@ def eval_case(ctx, case):
     if abs(abs(float(N @ nf)) - 1) > 1e-9:
         ctx.fail("%s.normal:not-perpendicular" % case["cls"], "stored normal is not the plane's unit normal", case, N)
         return
+    ctx.count("stored-orientation-about-normal:" + ("ccw" if s_frame * s_norm > 0 else "cw"))
     exp_signed = s_frame * s_norm * A
-    sig = case["cls"]
-    tag = ":cw" if case["orientation"] == "cw" else ""
+    tag = ":cw" if s_frame * s_norm < 0 else ""
     if not ctx.close_enough(obs["area"], A, Ls ** 2):
         ctx.fail(sig + ".area:value", "area differs from the exact integral", case, [obs["area"], A])
     if not ctx.close_enough(obs["signed_area"], exp_signed, Ls ** 2):
         ctx.fail(sig + ".signed_area:value", "signed area wrong (value or sign convention)", case,
                  [obs["signed_area"], exp_signed])
-    per = float(np.sum(np.linalg.norm(np.roll(v_in, -1, axis=0) - v_in, axis=1)))
+    per = float(np.sum(np.linalg.norm(np.roll(p2, -1, axis=0) - p2, axis=1)))
     if not ctx.close_enough(obs["perimeter"], per, Ls):
         ctx.fail(sig + ".perimeter:value", "perimeter differs from the sum of edge lengths", case,
                  [obs["perimeter"], per])
@@ -130,67 +262,246 @@ def eval_case(ctx, case):
     if not ctx.close_enough(obs["inertia"], I, Ls ** 4):
         ctx.fail(sig + ".inertia_tensor:value", "inertia tensor differs from J n n^T + parallel axis", case,
                  [obs["inertia"], I])
-    if case["frame"]["plane"] == "xy" and np.allclose(N, Z) and np.allclose(R, np.eye(3), atol=1e-12):
+    # planar moments are frame dependent (planarMoments_frame_integral: they are the integrals of (e2.r)^2, (e1.r)^2,
+    # (e1.r)(e2.r) with e1, e2 the in-plane rows of whatever matrix kabsch returns; the model/implementation
+    # correspondence above compares them in that frame).  What does NOT depend on the frame, for every plane: the
+    # invariants of the in-plane second-moment tensor M = int (Pr)(Pr)^T, P = 1 - n n^T:  I_x + I_y = tr M (the polar
+    # moment, checked above) and I_x I_y - I_xy^2 = ((tr M)^2 - tr M^2) / 2.
+    P = np.eye(3) - np.outer(nf, nf)
+    a0 = P @ o
+    M = (A * np.outer(a0, a0) + f0 * (np.outer(a0, u) + np.outer(u, a0)) + f1 * (np.outer(a0, w) + np.outer(w, a0))
+         + s00 * np.outer(u, u) + s01 * (np.outer(u, w) + np.outer(w, u)) + s11 * np.outer(w, w))
+    inv2 = 0.5 * (np.trace(M) ** 2 - np.trace(M @ M))
+    ix, iy, ixy = [float(x) for x in obs["planar"]]
+    ctx.count("planar_invariants_checked")
+    if not (ctx.close_enough(ix + iy, polar, Ls ** 4) and ctx.close_enough(ix * iy - ixy * ixy, inv2, Ls ** 8, tol=4e-9)
+            and ix >= -1e-9 * Ls ** 4 and iy >= -1e-9 * Ls ** 4):
+        ctx.fail(sig + ".planar_moments_inertia:invariants", "the frame-independent invariants I_x + I_y and "
+                 "I_x I_y - I_xy^2 of the planar moments differ from those of the exact in-plane second-moment tensor",
+                 case, [obs["planar"], [polar, inv2]])
+    if case["frame"]["plane"] == "xy" and np.allclose(N, Z, atol=1e-15) and np.allclose(R, np.eye(3), atol=1e-12):
         ox, oy = float(o[0]), float(o[1])
-        ix = s11 + 2 * oy * f1 + oy * oy * A
-        iy = s00 + 2 * ox * f0 + ox * ox * A
-        ixy = s01 + ox * f1 + oy * f0 + ox * oy * A
+        pm = [s11 + 2 * oy * f1 + oy * oy * A, s00 + 2 * ox * f0 + ox * ox * A, s01 + ox * f1 + oy * f0 + ox * oy * A]
         ctx.count("planar_moments_checked")
-        if not ctx.close_enough(obs["planar"], [ix, iy, ixy], Ls ** 4):
+        if not ctx.close_enough(obs["planar"], pm, Ls ** 4):
             ctx.fail(sig + ".planar_moments_inertia:value" + tag,
-                     "planar moments differ from the integrals of y^2, x^2, xy", case, [obs["planar"], [ix, iy, ixy]])
-    # exact-rational re-evaluation of the model for xy-plane polygons (Q mode, signed-permutation R)
-    if case["frame"]["plane"] == "xy" and np.all(np.abs(np.abs(R) - np.round(np.abs(R))) < 1e-15):
-        Rr = np.round(R)
-        try:
-            qm = ctx.driver.Q("polygon.rational", L(list(verts)), np.round(N), Rr)
-            ctx.count("model_Q_evaluations")
-            if not ctx.close_enough(float(qm[0]), exp_signed, Ls ** 2):
-                ctx.disagree("polygon.rational:signed_area(model vs spec)", case, [float(qm[0]), exp_signed])
-        except ModelRaise:
-            pass
+                     "planar moments differ from the integrals of y^2, x^2, xy", case, [obs["planar"], pm])
+    # exact-rational re-evaluation for xy-plane polygons built directly (Q mode, signed-permutation R)
+    if (case["frame"]["plane"] == "xy" and how == "direct"
+            and np.all(np.abs(np.abs(R) - np.round(np.abs(R))) < 1e-12) and np.all(np.abs(N - np.round(N)) < 1e-15)):
+        exact_xy_block(ctx, case, obs, verts, N, R, Ls)
 
 
-def make_case(rng, ctx):
-    kind, p2 = gen.polygon2d(rng)
-    scale = 1.0 if rng.random() < 0.6 else float(2.0 ** int(rng.integers(-10, 11)))
-    r = rng.random()
-    plane = "xy" if r < 0.4 else ("neartilt" if r < 0.55 else "random")
-    v, fr = gen.embed_polygon(rng, p2, plane=plane, scale=scale)
-    tris = gen.ear_clip_exact((p2 * scale).tolist())
-    orientation = "ccw" if rng.random() < 0.5 else "cw"
+def first_corner_ok(v):
+    e1, e2 = v[1] - v[0], v[2] - v[1]
+    return np.linalg.norm(np.cross(e1, e2)) > 1e-3 * np.linalg.norm(e1) * np.linalg.norm(e2)
+
+
+def finish_case(rng, ctx, kind, p2, scale, plane, orientation, mode, nlen, cls, shuffled=False, ncols=3,
+                offset_diams=None, needle=0, Rm=None, order=None, count=True):
+    """embed the (ccw, scaled-by-`scale`) plane polygon p2 and assemble the case dict"""
+    if Rm is None:
+        v, fr = gen.embed_polygon(rng, p2, plane=plane, scale=scale, offset_diams=offset_diams)
+    else:
+        q2 = np.asarray(p2, dtype=float) * scale
+        u, w, n = Rm[:, 0], Rm[:, 1], Rm[:, 2]
+        dd = float(np.max(np.linalg.norm(q2[:, None] - q2[None], axis=-1)))
+        o = np.array([0.6, -0.8, 0.0 if plane == "xy" else 0.5]) * dd * (offset_diams or 0.0)
+        v = o[None, :] + q2[:, :1] * u[None, :] + q2[:, 1:2] * w[None, :]
+        fr = {"o": o, "u": u, "w": w, "n": n, "offset_diams": offset_diams or 0.0, "plane": plane}
+    if ncols == 2:
+        # (N,2) input: the constructor pads z = 0, so the polygon must lie in the plane z = 0
+        v[:, 2] = 0.0
+        fr["o"] = np.array([fr["o"][0], fr["o"][1], 0.0])
+    tris = gen.ear_clip_exact((np.asarray(p2, dtype=float) * scale).tolist())
     if orientation == "cw":
         v = v[::-1].copy()
+    if shuffled:
+        # ConvexPolygon sorts its vertices itself: hand them over in a random order (first corner not straight)
+        for _ in range(50):
+            v = v[rng.permutation(len(v))]
+            if first_corner_ok(v):
+                break
     # The constructor takes the normal from the FIRST corner (v0, v1, v2); a straight first corner is the known
     # C15 finding `Polygon.__init__:rejects-valid:straight-first-corner`, not a C04 matter: start the same cycle
     # at a vertex whose corner is clearly not straight (a cyclic shift does not change the polygon).
     for _ in range(len(v)):
-        e1, e2 = v[1] - v[0], v[2] - v[1]
-        if np.linalg.norm(np.cross(e1, e2)) > 1e-3 * np.linalg.norm(e1) * np.linalg.norm(e2):
+        if first_corner_ok(v):
             break
         v = np.roll(v, -1, axis=0)
-    mode = ["default", "same", "opposite"][int(rng.integers(3))]
     normal = None
-    # explicit normals are passed with a non-unit length half of the time (the constructor must normalise them)
-    nlen = 1.0 if rng.random() < 0.5 else float(rng.choice([2.0, 0.5, 3.7, 1e-3, 1e3]))
     if mode == "same":
         normal = (fr["n"] * nlen).tolist()
     elif mode == "opposite":
         normal = (-fr["n"] * nlen).tolist()
-    if mode != "default":
-        ctx.count("normal-length:" + ("unit" if nlen == 1.0 else "non-unit"))
-    cls = "Polygon"
-    if kind in ("convex", "rect", "triangle") and rng.random() < 0.5:
-        cls = "ConvexPolygon"
-    ctx.count("kind:" + kind)
-    ctx.count("orientation:" + orientation)
-    ctx.count("normal:" + mode)
-    ctx.count("plane:" + plane)
-    ctx.count("cls:" + cls)
-    return {"cls": cls, "vertices": v.tolist(), "normal": normal, "orientation": orientation, "kind": kind,
-            "p2": (p2 * scale).tolist(), "tris": [list(t) for t in tris], "scale": scale,
+    if count:
+        if mode != "default":
+            ctx.count("normal-length:" + ("unit" if nlen == 1.0 else "non-unit"))
+        ctx.count("kind:" + kind)
+        ctx.count("orientation:" + orientation)
+        ctx.count("normal:" + mode)
+        ctx.count("plane:" + plane)
+        ctx.count("cls:" + cls + (":shuffled" if shuffled else ""))
+        ctx.count("input:(N,%d)" % ncols)
+        e = int(round(np.log2(scale)))
+        ctx.count("scale:" + ("1" if e == 0 else ("2^+-(1..10)" if abs(e) <= 10 else "2^+-(11..40)")))
+        if needle:
+            ctx.count("aspect:needle")
+    case = {"cls": cls, "vertices": v.tolist(), "normal": normal, "orientation": orientation, "kind": kind,
+            "p2": (np.asarray(p2, dtype=float) * scale).tolist(), "tris": [list(t) for t in tris], "scale": scale,
+            "ncols": ncols, "shuffled": bool(shuffled), "needle": int(needle),
             "frame": {"o": fr["o"].tolist(), "u": fr["u"].tolist(), "w": fr["w"].tolist(), "n": fr["n"].tolist(),
                       "plane": plane, "offset_diams": fr["offset_diams"]}}
+    if order:
+        case["order"] = list(order)
+    return case
+
+
+def small_polygon(rng):
+    """a random quadrilateral / pentagon (convex or with one reflex corner) on the 1/64 grid, ccw: the sizes at which
+    'the centroid is the vertex mean' style shortcuts are still right for triangles and parallelograms only"""
+    for _ in range(500):
+        n = int(rng.integers(4, 6))
+        t = np.sort(rng.uniform(0, 2 * np.pi, size=n))
+        if np.min(np.diff(np.r_[t, t[0] + 2 * np.pi])) < 0.3:
+            continue
+        r = rng.uniform(0.25, 1.0, size=n)
+        p = np.round(np.c_[r * np.cos(t), r * np.sin(t)] * 64) / 64
+        if len(np.unique(p, axis=0)) != n or not gen.is_simple_exact(p.tolist()):
+            continue
+        a2 = float(np.sum(p[:, 0] * np.roll(p[:, 1], -1) - np.roll(p[:, 0], -1) * p[:, 1]))
+        if a2 < 0.05:
+            continue
+        e1 = np.roll(p, -1, axis=0) - p
+        e2 = np.roll(p, -2, axis=0) - np.roll(p, -1, axis=0)
+        turn = (e1[:, 0] * e2[:, 1] - e1[:, 1] * e2[:, 0]) / (np.linalg.norm(e1, axis=1) * np.linalg.norm(e2, axis=1))
+        if np.min(np.abs(turn)) < 0.05:
+            continue
+        return ("quad" if n == 4 else "pent") + ("-convex" if np.min(turn) > 0 else "-reflex"), p
+    raise RuntimeError("could not generate a small polygon")
+
+
+def make_case(rng, ctx):
+    if rng.random() < 0.1:
+        kind, p2 = small_polygon(rng)
+    else:
+        kind, p2 = gen.polygon2d(rng)
+    r = rng.random()
+    if r < 0.5:
+        scale = 1.0
+    elif r < 0.8:
+        scale = float(2.0 ** int(rng.integers(-10, 11)))
+    else:
+        scale = float(2.0 ** int(rng.integers(-40, 41)))
+    r = rng.random()
+    plane = "xy" if r < 0.35 else ("neartilt" if r < 0.6 else "random")
+    orientation = "ccw" if rng.random() < 0.5 else "cw"
+    mode = ["default", "same", "opposite"][int(rng.integers(3))]
+    # explicit normals are passed with a non-unit length half of the time (the constructor must normalise them)
+    nlen = 1.0 if rng.random() < 0.5 else float(rng.choice([2.0, 0.5, 3.7, 1e-3, 1e3]))
+    cls = "Polygon"
+    shuffled = False
+    if (kind in ("convex", "rect", "triangle") or kind.endswith("-convex")) and rng.random() < 0.6:
+        cls = "ConvexPolygon"
+        shuffled = bool(rng.random() < 0.5)
+    needle = 0
+    if cls == "Polygon" and kind != "lattice" and rng.random() < 0.12:
+        # needle aspect ratio: stretch x by a power of two (stays on the dyadic grid, stays simple and ccw)
+        needle = int(rng.integers(3, 7))
+        p2 = p2 * np.array([2.0 ** needle, 1.0])
+    ncols = 2 if (plane == "xy" and rng.random() < 0.4) else 3
+    return finish_case(rng, ctx, kind, p2, scale, plane, orientation, mode, nlen, cls, shuffled=shuffled, ncols=ncols,
+                       needle=needle)
+
+
+def rot_x(a):
+    c, s = np.cos(a), np.sin(a)
+    return np.array([[1, 0, 0], [0, c, -s], [0, s, c]])
+
+
+def fixed_cases(ctx):
+    """One deterministic representative of every input class named in the property and in the lead's list, on an
+    L-shaped polygon (centroid != vertex mean, not centred): in EVERY run, whatever the seed."""
+    Lp = np.array([[0, 0], [3, 0], [3, 1], [1, 1], [1, 2], [0, 2]], dtype=float)                 # ccw, convex first corner
+    Lr = np.array([[3, 1], [1, 1], [1, 2], [0, 2], [0, 0], [3, 0]], dtype=float)                 # ccw, vertex 1 reflex
+    sq = np.array([[0, 0], [2, 0], [2, 1], [0.5, 1.75], [0, 1]], dtype=float)                    # convex pentagon
+    rng = np.random.default_rng(4)
+    inertia_first = ["inertia", "planar", "polar", "centroid", "signed_area", "area", "perimeter", "center"]
+    moments_first = ["planar", "polar", "inertia", "planar", "polar"][:3] + ["centroid", "center", "area",
+                                                                               "signed_area", "perimeter"]
+    out = []
+
+    def add(kind, p2, **kw):
+        kw.setdefault("scale", 1.0)
+        kw.setdefault("plane", "xy")
+        kw.setdefault("orientation", "ccw")
+        kw.setdefault("mode", "default")
+        kw.setdefault("nlen", 1.0)
+        kw.setdefault("cls", "Polygon")
+        kw.setdefault("offset_diams", 1.0)
+        c = finish_case(rng, ctx, kind, p2, kw.pop("scale"), kw.pop("plane"), kw.pop("orientation"), kw.pop("mode"),
+                        kw.pop("nlen"), kw.pop("cls"), count=False, **kw)
+        c["no_history"] = True
+        out.append(c)
+    eye = np.eye(3)
+    flip = np.diag([1.0, -1.0, -1.0])
+    add("fixed:L", Lp, Rm=eye, order=inertia_first)
+    add("fixed:L", Lp, Rm=eye, order=moments_first)
+    add("fixed:L-cw-explicit+z", Lp, Rm=eye, orientation="cw", mode="same", order=inertia_first)
+    add("fixed:L-cw-default", Lp, Rm=eye, orientation="cw")
+    add("fixed:L-reflex-first", Lr, Rm=eye, order=inertia_first)
+    add("fixed:L-opposing-nonunit", Lp, Rm=eye, mode="opposite", nlen=2.0)
+    add("fixed:L-same-nonunit", Lp, Rm=eye, mode="same", nlen=0.25, order=inertia_first)
+    add("fixed:L-(N,2)", Lp, Rm=eye, ncols=2, order=inertia_first)
+    add("fixed:L-(N,2)-cw-opposing", Lp, Rm=eye, ncols=2, orientation="cw", mode="opposite", nlen=3.0)
+    add("fixed:L-minus-z", Lp, Rm=flip, plane="xy")
+    for ang in (1e-6, 1e-4, 2e-3, 4e-3, 2e-2):
+        # almost flat: tilted by `ang` about x (and about a skew axis), normal near +z and near -z
+        add("fixed:L-neartilt", Lp, Rm=rot_x(ang), plane="neartilt", order=inertia_first if ang > 1e-3 else None)
+        add("fixed:L-neartilt-explicit", Lp, Rm=rot_x(-ang) @ np.array([[0.0, -1, 0], [1, 0, 0], [0, 0, 1]]),
+            plane="neartilt", mode="same", nlen=2.0)
+        add("fixed:L-neartilt-minus-z", Lr, Rm=rot_x(ang) @ flip, plane="neartilt")
+    add("fixed:L-neartilt-2e-7", Lp, Rm=rot_x(2e-7), plane="neartilt", offset_diams=0.25)
+    # general quadrilaterals (not parallelograms): trapezoid, dart (reflex corner), also cw and tilted
+    trap = np.array([[0, 0], [4, 0], [2.5, 1], [1, 1]], dtype=float) + np.array([0.0, 0.0])
+    trap[2] = [2.0, 1.0]
+    dart = np.array([[0, 0], [1, 0.5], [2, 0], [1, 2]], dtype=float)
+    add("fixed:quad-trapezoid", trap, Rm=eye)
+    add("fixed:quad-trapezoid-convexpolygon", trap, Rm=eye, cls="ConvexPolygon", shuffled=True)
+    add("fixed:quad-dart", dart, Rm=eye, order=inertia_first)
+    add("fixed:quad-dart-cw", dart, Rm=eye, orientation="cw", mode="same")
+    Rt = gen.random_rotation(np.random.default_rng(7))
+    add("fixed:quad-trapezoid-tilted", trap, Rm=Rt, plane="random", cls="ConvexPolygon")
+    # planes whose normal is dominated by x / by y (signed_area projects along the dominant axis)
+    tiltg = rot_x(0.2) @ np.array([[np.cos(0.3), 0, np.sin(0.3)], [0, 1, 0], [-np.sin(0.3), 0, np.cos(0.3)]])
+    z2x = np.array([[0.0, 0, 1], [1, 0, 0], [0, 1, 0]])         # columns u, w, n with n = x
+    z2y = np.array([[0.0, 1, 0], [0, 0, 1], [1, 0, 0]])         # n = y
+    for nm, Rm_ in (("x", z2x), ("y", z2y), ("x~", tiltg @ z2x), ("y~", tiltg @ z2y), ("-y~", tiltg @ z2y @ flip)):
+        add("fixed:L-normal-along-" + nm, Lp, Rm=Rm_, plane="random", order=inertia_first if nm == "y~" else None)
+        add("fixed:L-normal-along-" + nm + "-cw", Lr, Rm=Rm_, plane="random", orientation="cw", mode="same", nlen=2.0)
+    add("fixed:L-tilted", Lp, Rm=Rt, plane="random", offset_diams=1.5, order=inertia_first)
+    add("fixed:L-tilted-cw-opposing", Lr, Rm=Rt, plane="random", offset_diams=1.5, orientation="cw", mode="opposite",
+        nlen=1e3)
+    for sc in (2.0 ** -30, 2.0 ** -10, 2.0 ** 10, 2.0 ** 30):
+        add("fixed:L-scale", Lp, Rm=eye, scale=sc, order=inertia_first)
+        add("fixed:L-scale-tilted", Lr, Rm=Rt, plane="random", scale=sc, offset_diams=2.0)
+    add("fixed:convex", sq, Rm=eye, cls="ConvexPolygon", order=inertia_first)
+    add("fixed:convex-shuffled", sq, Rm=eye, cls="ConvexPolygon", shuffled=True)
+    add("fixed:convex-shuffled-tilted", sq, Rm=Rt, plane="random", cls="ConvexPolygon", shuffled=True, mode="opposite")
+    add("fixed:convex-cw-neartilt", sq, Rm=rot_x(3e-3), plane="neartilt", cls="ConvexPolygon", orientation="cw",
+        order=inertia_first)
+    # reached through the public mutators (scaled + shifted copy, every member read, size setter, centroid setter):
+    # deterministic per case; a dozen different detours
+    for k in range(12):
+        Rk = [eye, Rt, rot_x(1e-3 * (k + 1)), tiltg @ z2y][k % 4]
+        add("fixed:L-via-history-%d" % k, Lp if k % 2 else Lr, Rm=Rk, plane="xy" if k % 4 == 0 else "random",
+            offset_diams=0.5 + 0.25 * k, orientation="cw" if k % 3 == 0 else "ccw",
+            order=inertia_first if k % 2 else None)
+        out[-1]["no_history"] = False
+        out[-1]["force_history"] = True
+    add("fixed:needle", Lp * np.array([64.0, 1.0]), Rm=eye, needle=6)
+    add("fixed:needle-tilted", Lp * np.array([64.0, 1.0]), Rm=Rt, plane="random", needle=6, order=inertia_first)
+    return out
 
 
 CORPUS = [
@@ -222,7 +533,11 @@ def run(ctx):
                           "plane": "random", "offset_diams": 1.5}}
         ctx.case(case)
         eval_case(ctx, case)
-    n = ctx.budget(250, 8000)
+        for case in fixed_cases(ctx):
+            ctx.count("fixed-class-representatives")
+            ctx.case(case)
+            eval_case(ctx, case)
+    n = ctx.budget(300, 8000)
     for _ in range(n):
         case = make_case(ctx.rng, ctx)
         ctx.case(case)
